@@ -12,6 +12,7 @@ from typing import Any, Callable, Optional
 Table = list[list[str]]          # first row = header
 
 SAFE = "ABCDEFGHIJabcdefghij0123456789"
+PUNCT = "![]|^#$@"       # in every EBCDIC-able table: characters on which the EBCDIC code pages (037, 500, 1047) differ
 TRICKY = ["x,y", 'say "hi"', "007", "0.50", "1e5", " lead", "trail ", "tab\there", "semi;colon", "é", "naïve", "Ω", "a'b", "-5", "TRUE",
           "#N/A", "=1+1", "line1 line2", "null", "None", "{}", "[1]"]
 
@@ -36,7 +37,7 @@ def gen_table(rng, *, n_cols: Optional[int] = None, n_rows: Optional[int] = None
 
     def cell() -> str:
         if fixed_safe:
-            return "".join(rng.choice(SAFE) for _ in range(rng.randint(1, 8)))
+            return "".join(rng.choice(SAFE + (PUNCT if rng.random() < 0.3 else "")) for _ in range(rng.randint(1, 8)))
         if rng.random() < tricky:
             return rng.choice(TRICKY)
         return "".join(rng.choice(SAFE) for _ in range(rng.randint(1, 8)))
